@@ -84,7 +84,7 @@ func runOpPair(a *args, res *result) {
 	case "C04", "C10":
 		cacheKinds = nil
 		mapKinds = []string{"MapOf[int,val]", "MapOf[string,val]/const", "MapOf[skey,val]/sameh1"}
-	case "C01", "C02", "C09", "C06", "C08":
+	case "C01", "C02", "C09", "C06", "C08", "C07":
 		mapKinds = nil
 	case "C12":
 		mapKinds = []string{"Map", "MapOf[string,any]"}
@@ -129,10 +129,11 @@ func runOpPair(a *args, res *result) {
 			continue
 		}
 		sweepOverlap(res, kind, stuckCh)
+		sweepVsRefresh(res, kind, stuckCh)
 		if a.prop != "C08" {
 			tripleSweep(res, kind, stuckCh)
 			configPair(res, kind, stuckCh)
-			tickClock(res, kind)
+			tickClock(res, kind, stuckCh)
 			refreshOnEvict(res, kind)
 		}
 	}
@@ -355,6 +356,23 @@ func opPairCache(res *result, kind, st string, A, B pairOp, stuckCh chan string)
 		for _, h := range []*hev{ha, hb} {
 			if h.Kind == cGetAndDelete && h.OutOK && !seen[h.OutV] {
 				cbBad("GetAndDelete loaded without firing the callback", h.String())
+				return
+			}
+		}
+		// ---- later on (C07/C01): once the entry the pair left behind has expired, no
+		// traversal may show it any more, whatever the two calls did to each other
+		if final.OutOK && final.OutE != 0 {
+			vshim.SetVNow(final.OutE + 1)
+			_, inItems := c.Items()[opKey]
+			inRange := false
+			c.Range(func(k int, v any) bool {
+				if k == opKey {
+					inRange = true
+				}
+				return true
+			})
+			if inItems || inRange {
+				cbBad("an expired entry is shown by a traversal after two overlapping calls on its key", fmt.Sprintf("the entry expired at %d, one tick later Items shows it: %v, Range visits it: %v", final.OutE-now, inItems, inRange))
 				return
 			}
 		}
@@ -787,7 +805,7 @@ func configPair(res *result, kind string, stuckCh chan string) {
 // the call. A call that decides "live" with one reading and "expired" with
 // another (runs the user function yet reports loaded, stores yet returns the old
 // value, ...) has no such explanation.
-func tickClock(res *result, kind string) {
+func tickClock(res *result, kind string, stuckCh chan string) {
 	def := time.Duration(30 * time.Minute)
 	for _, A := range cachePairOps() {
 		for j := int64(0); j <= 8; j++ {
@@ -805,9 +823,29 @@ func tickClock(res *result, kind string) {
 			wa.k, wa.v = opKey, nextVal(opKey)
 			logCase("oppair tick-clock %s A=%s j=%d", kind, A.name, j)
 			res.Evaluations++
+			// the call runs in a goroutine of its own under a step budget: a call that never
+			// returns (a retry loop that compares two different clock readings) is reported
+			vshim.ResetGStep()
+			vshim.SetMode(vshim.MGlobal | vshim.MCount)
+			vshim.SetStepBudget(1 << 21)
 			vshim.SetAutoTick(1)
-			h := execCacheOp(c, &wa, 0, before, def)
+			hdone := make(chan *hev, 1)
+			go func() { hdone <- execCacheOp(c, &wa, 0, before, def) }()
+			var h *hev
+			select {
+			case h = <-hdone:
+			case reason := <-stuckCh:
+				vshim.SetAutoTick(0)
+				vshim.SetStepBudget(0)
+				vshim.SetMode(0)
+				res.violate(violation{Class: "oppair", Sig: fmt.Sprintf("%s does not return when the clock passes the entry's expiry during the call", A.name),
+					Msg:  fmt.Sprintf("%s: entry expires at +%d, every clock reading advances the clock by one tick: %s", kind, e0-before, reason),
+					Case: map[string]any{"kind": kind, "A": A.name, "j": j}})
+				return
+			}
 			vshim.SetAutoTick(0)
+			vshim.SetStepBudget(0)
+			vshim.SetMode(0)
 			after := vshim.VNow()
 			T := after + 1000
 			vshim.SetVNow(T)
@@ -1020,6 +1058,127 @@ func opPairGrowDue(res *result, kind string, A, B pairOp, stuckCh chan string) {
 			res.violate(violation{Class: "oppair", Sig: "a key is stored twice when two calls insert it while the first one has to grow the table",
 				Msg:  fmt.Sprintf("%s, A=%s parked at its step %d of %d (after it grew the table), B=%s: Range visits k%d %d times, Size()=%d, Range visits %d pairs, 126 keys were stored", kind, A.name, N, L, B.name, opKey, dup, m.Size(), n),
 				Case: map[string]any{"kind": kind, "A": A.name, "B": B.name, "N": N}})
+			return
+		}
+	}
+}
+
+// sweepVsRefresh: a DeleteExpired pass is suspended at each of its steps; meanwhile
+// every second expired entry is given a fresh, never-expiring value; the pass is
+// resumed. When it returns, the entries that were still expired must all be gone and
+// reported once (the pass may not give up because one of its candidates turned out
+// to be alive), the refreshed ones must be there with their new values, unreported.
+func sweepVsRefresh(res *result, kind string, stuckCh chan string) {
+	const n = 24
+	for N := int64(1); N < 600; N++ {
+		vshim.SetVNow(epoch)
+		led := &ledger{}
+		c := newCache(cacheSpec{Flavor: kind, Ctor: "New", OptMask: 1 | 2 | 4, DefExp: time.Hour, Interval: 0, NKeys: 64, Callback: led.cb(1)})
+		old := map[int]any{}
+		for k := 0; k < n; k++ {
+			old[k] = nextVal(k)
+			c.Set(k, old[k], 5)
+		}
+		vshim.SetVNow(epoch + 10)
+		logCase("oppair sweep-vs-refresh %s N=%d", kind, N)
+		res.Evaluations++
+		vshim.SetTokenMode(true)
+		vshim.ResetGStep()
+		vshim.SetStepBudget(0)
+		vshim.SetMode(vshim.MGlobal | vshim.MPoll | vshim.MCount)
+		adone := make(chan struct{})
+		vshim.ArmPark(N)
+		go func() { c.DeleteExpired(); close(adone) }()
+		var tok *vshim.ParkToken
+		select {
+		case tok = <-vshim.ParkedTokens():
+		case <-adone:
+		}
+		vshim.ArmPark(0)
+		if tok == nil {
+			vshim.SetMode(0)
+			return
+		}
+		res.count("scenarios_parked", 1)
+		fp := newFP()
+		fp.addStr("sweep-vs-refresh" + kind)
+		fp.add(uint64(N))
+		res.nontrivial(fp.sum())
+		// refresh every second key; a refresh may have to wait for a bucket the pass holds
+		fresh := map[int]any{}
+		wdone := make(chan struct{})
+		vshim.ArmSpinNotify()
+		vshim.SetStepBudget(1 << 22)
+		go func() {
+			for k := 0; k < n; k += 2 {
+				v := nextVal(k)
+				fresh[k] = v
+				c.SetForever(k, v)
+			}
+			close(wdone)
+		}()
+		stuck := ""
+		select {
+		case <-wdone:
+		case <-vshim.SpinNotified():
+		case stuck = <-stuckCh:
+		}
+		vshim.DisarmSpinNotify()
+		tok.Resume()
+		for done := 0; stuck == "" && done < 2; {
+			select {
+			case <-adone:
+				adone = nil
+				done++
+			case <-wdone:
+				wdone = nil
+				done++
+			case late := <-vshim.ParkedTokens():
+				late.Resume()
+			case stuck = <-stuckCh:
+			}
+		}
+		vshim.SetStepBudget(0)
+		vshim.SetMode(0)
+		bad := func(sig, msg string) {
+			res.violate(violation{Class: "oppair", Sig: sig, Msg: fmt.Sprintf("%s, DeleteExpired parked at its step %d while every second expired entry was refreshed: %s", kind, N, msg), Case: map[string]any{"kind": kind, "N": N}})
+		}
+		if stuck != "" {
+			bad("a call does not return when a sweep was suspended mid-pass", stuck)
+			return
+		}
+		rep := map[any]int{}
+		led.mu.Lock()
+		for _, e := range led.entries {
+			rep[e.V]++
+		}
+		led.mu.Unlock()
+		for k := 0; k < n; k++ {
+			v, ok := c.Get(k)
+			if k%2 == 0 {
+				// refreshed: present with the new value; the old value may have been removed
+				// and reported (once) if the pass got there first
+				if !ok || v != fresh[k] {
+					bad("a value stored while a sweep was in flight is lost", fmt.Sprintf("k%d = (%s,%v), stored %s", k, fmtVal(v), ok, fmtVal(fresh[k])))
+					return
+				}
+				if rep[fresh[k]] != 0 || rep[old[k]] > 1 {
+					bad("evicted callback for a value that is still retrievable, or twice for one value", fmt.Sprintf("k%d", k))
+					return
+				}
+				continue
+			}
+			if ok {
+				bad("an expired entry is returned", fmt.Sprintf("k%d", k))
+				return
+			}
+			if rep[old[k]] != 1 {
+				bad("DeleteExpired returns while an entry that had expired before it was invoked is still there (or unreported)", fmt.Sprintf("k%d (expired 5 ticks before the pass began) reported %d times; Count()=%d, %d entries are live", k, rep[old[k]], c.Count(), n/2))
+				return
+			}
+		}
+		if cnt := c.Count(); cnt != n/2 {
+			bad("Count differs from the live entries right after DeleteExpired", fmt.Sprintf("Count()=%d, %d entries are live", cnt, n/2))
 			return
 		}
 	}
